@@ -87,6 +87,7 @@ type Options struct {
 // Cluster is the simulated cluster.
 type Cluster struct {
 	mu      sync.Mutex
+	tickMu  sync.RWMutex // concurrent mode: API calls hold it shared, the clock / kubelet / user exclusively
 	Scheme  *runtime.Scheme
 	tracker clienttesting.ObjectTracker
 	base    client.WithWatch // un-instrumented client used by the driver itself
@@ -109,6 +110,9 @@ type Cluster struct {
 
 	seq    int // global API call counter
 	Faults map[int]FaultKind
+	// PodFault fails pod create/delete calls of the reconcilers: "" | all | first | alt (every second call)
+	PodFault    string
+	podFaultCnt int
 	// OnCall, when set, is called (without the mutex) before each API call of a reconciler: gate for schedules.
 	OnCall func(actor string, seq int, verb, kind string)
 
@@ -221,7 +225,13 @@ func (a *Actor) before(verb, kind string, isWrite bool) (int, FaultKind, error) 
 	seq := c.seq
 	dead := a.dead
 	var f FaultKind
-	if !dead && a.name != "cmd" { // faults are injected into the controllers' calls, not into the user's kubectl
+	if !dead && a.name != "cmd" && c.PodFault != "" && kind == "Pod" && (verb == "create" || verb == "delete") {
+		c.podFaultCnt++
+		if c.PodFault == "all" || (c.PodFault == "first" && c.podFaultCnt == 1) || (c.PodFault == "alt" && c.podFaultCnt%2 == 1) {
+			f = FaultReject
+		}
+	}
+	if !dead && a.name != "cmd" && f == FaultNone { // faults are injected into the controllers' calls, not into the user's kubectl
 		if fk, ok := c.Faults[seq]; ok && (isWrite || c.opts.FaultOnReads) {
 			f = fk
 			if !isWrite && f != FaultReject {
@@ -266,6 +276,8 @@ func (a *Actor) after(f FaultKind) {
 }
 
 func (a *Actor) doWrite(verb string, obj client.Object, what string, apply func() error) error {
+	a.cl.tickMu.RLock()
+	defer a.cl.tickMu.RUnlock()
 	kind := kindOf(obj)
 	seq, f, err := a.before(verb, kind, true)
 	if err != nil {
@@ -307,6 +319,8 @@ func (a *Actor) doWrite(verb string, obj client.Object, what string, apply func(
 }
 
 func (a *Actor) doRead(verb string, obj runtime.Object, apply func() error) error {
+	a.cl.tickMu.RLock()
+	defer a.cl.tickMu.RUnlock()
 	_, f, err := a.before(verb, kindOf(obj), false)
 	if err != nil {
 		return err
